@@ -6,7 +6,7 @@
    correspondence on LF/CRLF pairs, not by a theorem. *)
 From Coq Require Import String List NArith Bool.
 From CMinx Require Import Base.Str Model.Lexer Model.Parser Model.Aggregator Model.Pipeline
-     Proofs.LexerFacts Proofs.PipelineFacts Proofs.AggInv Proofs.CleanFacts.
+     Proofs.LexerFacts Proofs.PipelineFacts Proofs.AggInv Proofs.CleanFacts Proofs.LayoutFacts.
 Import ListNotations.
 
 (* any edit that keeps the visible token sequence keeps the page (or the error) *)
@@ -97,3 +97,37 @@ Theorem C04_reindent_invariance :
     clean_doc_lines (canon_lines ind1 L) = clean_doc_lines (canon_lines ind2 L).
 Proof. exact reindent_invariance. Qed.
 Print Assumptions C04_reindent_invariance.
+
+(* the general form (Proofs/LayoutFacts.v): spaces, tabs, CR, LF inserted directly after ANY piece
+   (token, whitespace run, comment) of any input keep the visible token sequence *)
+Theorem C04_ws_at_any_boundary :
+  forall x ps u rest ins k,
+    reaches x ps (u ++ rest) -> best (u ++ rest) = Some (k, length u) -> u <> [] ->
+    forallb is_ws ins = true ->
+    lex_sim (lex (concat (map snd ps) ++ u ++ ins ++ rest)) (lex x).
+Proof. exact lex_insert_ws_at_boundary. Qed.
+Print Assumptions C04_ws_at_any_boundary.
+
+(* ... at any number of boundaries at once: respace ps gaps prints the pieces with gaps.(i)
+   inserted after piece i *)
+Theorem C04_respace :
+  forall x ps gaps, lex_all x = LexOk ps -> Forall (fun g => forallb is_ws g = true) gaps ->
+    lex_sim (lex (respace ps gaps)) (lex x).
+Proof. exact lex_respace. Qed.
+Print Assumptions C04_respace.
+
+(* removing whitespace that stands at piece boundaries is the same statement read backwards *)
+Theorem C04_remove_ws :
+  forall x' ps gaps, lex_all x' = LexOk ps -> Forall (fun g => forallb is_ws g = true) gaps ->
+    lex_sim (lex (concat (map snd ps))) (lex (respace ps gaps)).
+Proof. exact lex_remove_ws. Qed.
+Print Assumptions C04_remove_ws.
+
+(* LF -> CRLF keeps the token sequence of files made of identifiers, parentheses, whitespace and
+   line comments (a quoted argument spanning lines gets a CR inside its text: the property only
+   promises line-ending characters there) *)
+Theorem C04_crlf_partial :
+  forall x ps, lex_all x = LexOk ps -> forallb (fun p => crlf_safe_kind (fst p)) ps = true ->
+    lex_sim (lex (crlf x)) (lex x).
+Proof. exact lex_crlf. Qed.
+Print Assumptions C04_crlf_partial.
